@@ -8,6 +8,7 @@ import (
 
 	_ "verif/sim/engines/c02"
 	_ "verif/sim/engines/c10"
+	_ "verif/sim/engines/c17"
 	_ "verif/sim/engines/c20"
 	"verif/sim/harness"
 )
